@@ -579,7 +579,7 @@ func TestC01(t *testing.T) {
 	defer r.Flush()
 	if r.Lane == 3%r.Lanes {
 		// the engine behind a types.HttpServer listening itself: HTTP/1.1, HTTP/2 (TLS) and HTTP/3 (QUIC) on loopback
-		defer netLanes(r, r.N(4, 64))
+		netLanes(r, r.N(4, 64))
 	}
 	r.Rule("PRNG sessions on the real server (virtual time): transport {polling, JSONP, WebSocket, WebTransport(in-memory stream)} x revision x b64 x Accept-Encoding x compression threshold x permessage-deflate x optional upgrade mid-stream x heartbeats, 1-3 sender goroutines each sending 1-80 messages (sizes 0..200000 around 125/126/1024/4096/8192/65535 boundaries, text/binary, four reader types, per-packet options incl. pre-encoded frames, bursts and gaps); every message carries (sender, n); the client decodes with the reference codec; oracle: per sender received == sent (order, bytes, kind, exactly once) after quiescence + 600 ms; distinct = configuration/shape signature")
 	r.Assume("text sent on a revision-4 polling session never contains U+001E: the v4 payload format separates packets with it and defines no escaping")
